@@ -14,6 +14,7 @@ CHECKS = {
     "C01": ("vf.checks_wire", "c01"),
     "C02": ("vf.checks_wire", "c02"),
     "C04": ("vf.checks_wire", "c04"),
+    "C06": ("vf.checks_wire", "c06"),
     "C19": ("vf.checks_wire", "c19"),
 }
 
